@@ -317,6 +317,20 @@ def generate(repo):
     except StopIteration:
         facts['be_report_before_ctx_removal'] = False
 
+    # per-event try/catch inside both backtrace replay callbacks of _process_transit_event
+    sk['be_process_transit_event'] = method_skeleton(docs, p, '_process_transit_event') or []
+    src = open(p, 'rb').read().decode('utf8', 'replace')
+    m = re.findall(r'backtrace_storage->process\(\s*\[this\]\(TransitEvent const& te[^)]*\)\s*\{(.*?)\}\);', src, flags=re.S)
+    facts['be_bt_replay_catch'] = len(m) == 2 and all(('QUILL_TRY' in b and 'QUILL_CATCH_ALL' in b) for b in m)
+
+    sk['be_populate_transit_event_from_frontend_queue'] = method_skeleton(docs, p, '_populate_transit_event_from_frontend_queue') or []
+    pe = [l.strip() for l in sk['be_populate_transit_event_from_frontend_queue']]
+    try:
+        i_if = next(i for i, l in enumerate(pe) if l.startswith('IF') and 'LogLevel::Dynamic' in l)
+        facts['be_dynamic_level_reset'] = any(re.match(r'EXPR transit_event->dynamic_log_level = LogLevel::None', l) for l in pe[i_if:])
+    except StopIteration:
+        facts['be_dynamic_level_reset'] = False
+
     return sk, facts, notes
 
 def emit(sk, facts, notes, out):
